@@ -20,6 +20,7 @@ import (
 	"strings"
 
 	"github.com/tink-crypto/tink-go/v2/insecuresecretdataaccess"
+	"github.com/tink-crypto/tink-go/v2/key"
 	"github.com/tink-crypto/tink-go/v2/secretdata"
 	"github.com/tink-crypto/tink-go/v2/streamingaead"
 	"github.com/tink-crypto/tink-go/v2/streamingaead/aesctrhmac"
@@ -111,38 +112,53 @@ func build(c cfg, extraKeys, pos int) (tink.StreamingAEAD, error) {
 	}
 	var es []tk.Entry
 	for i := 0; i <= extraKeys; i++ {
+		kc := c
 		kb := c.MainKey
 		if i != pos {
-			kb = ref.KeyBytes(fmt.Sprintf("c07-other-%d", i), len(c.MainKey))
+			// foreign candidate keys differ from the real one in key material AND, by position, in header length
+			// (other derived key size) or in scheme, so that a failed attempt consumes a different amount of the
+			// stream before the next candidate is tried
+			kb = ref.KeyBytes(fmt.Sprintf("c07-other-%d", i), 32)
+			switch (i + 1) % 3 {
+			case 1:
+				kc.KeySize = 48 - c.KeySize // 16 <-> 32
+			case 2:
+				if c.Scheme == "GCMHKDF" {
+					kc.Scheme, kc.TagAlg, kc.TagSize = "CTRHMAC", "SHA256", 16
+				} else {
+					kc.Scheme, kc.TagAlg, kc.TagSize = "GCMHKDF", "", 16
+				}
+			}
+			kc.SegmentSize = kc.HeaderLen() + kc.Tag() + 1 + (c.SegmentSize - c.HeaderLen() - c.Tag() - 1)
 		}
-		sd := secretdata.NewBytesFromData(bytes.Clone(kb), insecuresecretdataaccess.Token{})
-		if c.Scheme == "GCMHKDF" {
-			p, err := aesgcmhkdf.NewParameters(aesgcmhkdf.ParametersOpts{KeySizeInBytes: len(kb), DerivedKeySizeInBytes: c.KeySize, HKDFHashType: gcmHash[c.HKDFHash], SegmentSizeInBytes: int32(c.SegmentSize)})
-			if err != nil {
-				return nil, err
-			}
-			k, err := aesgcmhkdf.NewKey(p, sd)
-			if err != nil {
-				return nil, err
-			}
-			es = append(es, tk.Entry{Key: k, ID: uint32(100 + i), Status: tinkpb.KeyStatusType_ENABLED, Primary: i == pos})
-		} else {
-			p, err := aesctrhmac.NewParameters(aesctrhmac.ParametersOpts{KeySizeInBytes: len(kb), DerivedKeySizeInBytes: c.KeySize, HkdfHashType: ctrHash[c.HKDFHash], HmacHashType: ctrHash[c.TagAlg], HmacTagSizeInBytes: c.TagSize, SegmentSizeInBytes: int32(c.SegmentSize)})
-			if err != nil {
-				return nil, err
-			}
-			k, err := aesctrhmac.NewKey(p, sd)
-			if err != nil {
-				return nil, err
-			}
-			es = append(es, tk.Entry{Key: k, ID: uint32(100 + i), Status: tinkpb.KeyStatusType_ENABLED, Primary: i == pos})
+		k, err := streamKey(kc, kb)
+		if err != nil {
+			return nil, err
 		}
+		es = append(es, tk.Entry{Key: k, ID: uint32(100 + i), Status: tinkpb.KeyStatusType_ENABLED, Primary: i == pos})
 	}
 	hd, err := tk.Handle(es)
 	if err != nil {
 		return nil, err
 	}
 	return streamingaead.New(hd)
+}
+
+// streamKey builds the key object for configuration c with main key kb.
+func streamKey(c cfg, kb []byte) (key.Key, error) {
+	sd := secretdata.NewBytesFromData(bytes.Clone(kb), insecuresecretdataaccess.Token{})
+	if c.Scheme == "GCMHKDF" {
+		p, err := aesgcmhkdf.NewParameters(aesgcmhkdf.ParametersOpts{KeySizeInBytes: len(kb), DerivedKeySizeInBytes: c.KeySize, HKDFHashType: gcmHash[c.HKDFHash], SegmentSizeInBytes: int32(c.SegmentSize)})
+		if err != nil {
+			return nil, err
+		}
+		return aesgcmhkdf.NewKey(p, sd)
+	}
+	p, err := aesctrhmac.NewParameters(aesctrhmac.ParametersOpts{KeySizeInBytes: len(kb), DerivedKeySizeInBytes: c.KeySize, HkdfHashType: ctrHash[c.HKDFHash], HmacHashType: ctrHash[c.TagAlg], HmacTagSizeInBytes: c.TagSize, SegmentSizeInBytes: int32(c.SegmentSize)})
+	if err != nil {
+		return nil, err
+	}
+	return aesctrhmac.NewKey(p, sd)
 }
 
 func plain(n int) []byte {
